@@ -550,6 +550,31 @@ func templates() []template {
 				},
 			}
 		}},
+		{name: "destroy||expiry(first-of-two-holds)", props: []string{"C06"}, bound: 2, prog: func(t *testing.T) conc.Program {
+			return conc.Program{
+				Setup: func() any {
+					w := newWorld(t, cfgFile(), "s1", "s2")
+					w.mustTry("s1", "x", nil, p32(5), "h1")
+					w.mustTry("s1", "y", nil, nil, "h3")
+					w.mustTry("s1", "v", nil, p32(60), "h4")
+					w.mustTry("s2", "z", nil, p32(60), "h2")
+					return w
+				},
+				Threads: []conc.Thread{
+					{Name: "D", Run: func(c any) { c.(*world).disconnect("D", "s1") }},
+				},
+				Ticks: []time.Duration{5 * time.Second},
+				Finish: func(c any) conc.Outcome {
+					w := c.(*world)
+					return finish(w, func() {
+						sessionEndMonitor(w, "s1", []string{"x", "y", "v"}, map[string]string{"z": "h2"}, "release-in-flight")
+						if tm := w.ls.VerifTimerKeys(); len(tm) != 1 {
+							w.v("conc:session-end:lease-left:release-in-flight", "after session s1 ended %d lease timers exist, expected only the other session's", len(tm))
+						}
+					})
+				},
+			}
+		}},
 		{name: "destroy||blocked-lock(same-session)||unlock(other)", props: []string{"C06", "C03"}, bound: 2, prog: func(t *testing.T) conc.Program {
 			return conc.Program{
 				Setup: func() any {
@@ -973,7 +998,7 @@ func TestConc(t *testing.T) {
 			if vs, ok := r.Outcome.Detail["violations"].([]map[string]string); ok {
 				for _, v := range vs {
 					if relevant(prop, v["sig"]) {
-						res.Find(common.Finding{Kind: "violation", Property: prop, Signature: v["sig"] + "@" + tp.name, What: v["what"], Replay: rp()})
+						res.Find(common.Finding{Kind: "violation", Property: prop, Signature: v["sig"] + "@" + strings.TrimSuffix(tp.name, " [open]"), What: v["what"], Replay: rp()})
 					}
 				}
 			}
@@ -981,6 +1006,17 @@ func TestConc(t *testing.T) {
 		}
 		runs, exhausted := conc.ExploreDFS(t, prog, bound, maxRuns, visit)
 		conc.ExploreRandom(t, prog, nRandom, rng.Fork(uint64(len(tp.name))), visit)
+		// second pass with yields live INSIDE critical sections too (the mutexes still exclude): shows
+		// accesses one side makes outside the mutex the other side holds
+		open := prog
+		setup := prog.Setup
+		open.Setup = func() any { c := setup(); verifrt.SetNoSuppress(true); return c }
+		orig := tp.name
+		tp.name = orig + " [open]"
+		r2, _ := conc.ExploreDFS(t, open, bound, maxRuns/2, visit)
+		conc.ExploreRandom(t, open, nRandom, rng.Fork(uint64(len(tp.name))+7), visit)
+		tp.name = orig
+		runs += r2 + nRandom
 		res.CountN("schedules:"+tp.name, runs+nRandom)
 		if exhausted {
 			res.Count("dfs-exhausted:" + tp.name)
